@@ -24,6 +24,26 @@ fn main() {
     if args.len() < 3 {
         usage();
     }
+    if args[1] == "c19solo" {
+        // scheduling points per job, and one schedule executed twice (must be identical across runs and processes)
+        engine::quiet_panics();
+        let t0 = std::time::Instant::now();
+        println!("{:?}", props::c19::solo().iter().map(|x| x.1).collect::<Vec<_>>());
+        println!("warm-up + solo: {:?}", t0.elapsed());
+        let t0 = std::time::Instant::now();
+        for _ in 0..2 {
+            let r = props::c19::execute(8, 9, 0, vec![(0, 8657)]);
+            println!("{:?} {}", r.points, &r.obs[0][..r.obs[0].len().min(60)]);
+        }
+        println!("two schedules: {:?}", t0.elapsed());
+        return;
+    }
+    if args[1] == "hashprobe" {
+        // prints what HashMap iteration order looks like in this process (deterministic iff VERIF_DET_RANDOM is set)
+        let m: std::collections::HashMap<u32, u32> = (0..16).map(|i| (i, i)).collect();
+        println!("{:?}", m.keys().collect::<Vec<_>>());
+        return;
+    }
     if args[1] == "c08pair" {
         props::c08::debug_pair(&args[2], &args[3]);
         return;
@@ -122,4 +142,29 @@ fn main() {
         }
         _ => usage(),
     }
+}
+
+/// The harness owns the process's source of randomness: std seeds every HashMap (per thread) through
+/// getrandom(2), and the number and order of interner operations of a compilation depends on HashMap
+/// iteration order. When VERIF_DET_RANDOM is set (C19: schedules are identified by scheduling-point numbers
+/// and must replay exactly) this definition, which the linker prefers to libc's, returns a fixed byte
+/// sequence; otherwise it forwards to the system call (C15 explores real seeds).
+#[unsafe(no_mangle)]
+pub unsafe extern "C" fn getrandom(buf: *mut libc::c_void, len: libc::size_t, flags: libc::c_uint) -> libc::ssize_t {
+    static DET: std::sync::atomic::AtomicU8 = std::sync::atomic::AtomicU8::new(0);
+    let mut d = DET.load(std::sync::atomic::Ordering::Relaxed);
+    if d == 0 {
+        // no allocation here: getenv on a C string
+        let p = unsafe { libc::getenv(c"VERIF_DET_RANDOM".as_ptr()) };
+        d = if p.is_null() { 1 } else { 2 };
+        DET.store(d, std::sync::atomic::Ordering::Relaxed);
+    }
+    if d == 2 {
+        let b = buf as *mut u8;
+        for i in 0..len {
+            unsafe { *b.add(i) = (i as u8).wrapping_mul(37).wrapping_add(11) };
+        }
+        return len as libc::ssize_t;
+    }
+    unsafe { libc::syscall(libc::SYS_getrandom, buf, len, flags) as libc::ssize_t }
 }
